@@ -33,6 +33,9 @@ def main():
             continue
         if args.prop and args.prop not in m["props"]:
             continue
+        if shutil.disk_usage("/tmp").free < 30 << 30:
+            # every mutant leaves a full set of build-cache entries behind
+            subprocess.run(["go", "clean", "-cache"], check=False)
         tmp = tempfile.mkdtemp(prefix="mut-")
         try:
             repo = os.path.join(tmp, "repo")
